@@ -1,6 +1,7 @@
 package envx
 
 import (
+	"fmt"
 	"errors"
 	"io"
 	"net"
@@ -31,14 +32,17 @@ type BConn struct {
 	EndAt  time.Time
 }
 
-func NewBackend(ip string) (*Backend, error) {
+func NewBackend(ip string) (*Backend, error) { return NewBackendAt(ip, 0) }
+
+// NewBackendAt listens on a given port (0 = any).
+func NewBackendAt(ip string, port int) (*Backend, error) {
 	network := "tcp4"
 	host := ip
 	if ip == "::1" {
 		network = "tcp6"
 		host = "[::1]"
 	}
-	ln, err := net.Listen(network, host+":0")
+	ln, err := net.Listen(network, fmt.Sprintf("%s:%d", host, port))
 	if err != nil {
 		return nil, err
 	}
